@@ -96,6 +96,9 @@ def make_items(cx, spec, nprog, nenv, streams=('corpus', 'fragment', 'shapes')):
             src, tags = gen.twofield(cx.seed, i)
             items.append({'name': f'twofield/{cx.seed}/{i}', 'src': src, 'nenv': nenv, 'seed': cx.seed, 'stream': 'twofield', 'tags': tags,
                           'exact': 'twofield' if spec.get('exact', False) else False})
+    if 'addrfam' in streams:
+        for i in range(gen.N_ADDRFAM):
+            items.append({'name': f'addrfam/{cx.seed}/{i}', 'src': gen.addrfam(cx.seed, i), 'nenv': nenv, 'seed': cx.seed, 'stream': 'addrfam'})
     if 'layout' in streams:
         for i in range(nprog):
             items.append({'name': f'layout/{cx.seed}/{i}', 'src': gen.layout(cx.seed, i), 'nenv': nenv // 3, 'seed': cx.seed, 'stream': 'layout'})
@@ -186,7 +189,7 @@ def semantic_check(pid):
         if replay is not None:
             return do_replay(cx, pid, spec, replay)
         nprog, nenv = volumes(cx, 90, 100)
-        streams = ('corpus', 'fragment', 'shapes', 'direct', 'callfam') + (('twofield',) if pid in ('C01', 'C03', 'C07', 'C08') else ()) + (('layout',) if pid in ('C04', 'C05') else ()) + (('straight',) if pid == 'C11' else ())
+        streams = ('corpus', 'fragment', 'shapes', 'direct', 'callfam') + (('twofield',) if pid in ('C01', 'C03', 'C07', 'C08') else ()) + (('layout',) if pid in ('C04', 'C05') else ()) + (('addrfam',) if pid in ('C01', 'C08') else ()) + (('straight',) if pid == 'C11' else ())
         items = make_items(cx, spec, nprog, nenv, streams)
         results = engine.run_items(items)
         src_of = {it['name']: it['src'] for it in items}
